@@ -10,6 +10,7 @@ package main
 
 import (
 	"bufio"
+	"bytes"
 	"crypto/sha1"
 	"encoding/json"
 	"flag"
@@ -23,6 +24,7 @@ import (
 	"strconv"
 	"strings"
 	"sync"
+	"syscall"
 	"time"
 )
 
@@ -34,6 +36,7 @@ const (
 	OVERFL  = -1000005
 	WILD    = -1000006
 	HANG    = -1000007
+	CRASH   = -1000041 // the implementation run killed its (child) process: fatal error, out of memory, exit
 )
 
 type Prop struct {
@@ -45,6 +48,7 @@ type Prop struct {
 	Impl     func(in []int64) []int64
 	ImplM    func(in, model []int64) []int64    // optional: implementation driven by the model's answer (schedules)
 	Shrink   func(in []int64) [][]int64         // optional: smaller candidate inputs
+	Isolate  func(in []int64) bool              // optional: cases whose implementation run may kill the process (an allocation of 2^40 bytes is a fatal error, not a panic) run in a child process with an address-space limit
 	Known    func(in, out []int64) string       // optional: id of the known finding this failing case belongs to
 	Oracle   func(q []int64) []int64            // optional: answers ASK queries of the model
 	XProj    func(in, impl []int64) []int64     // optional: the part of the implementation's output the model can predict (the rest depends on internal nondeterminism the harness cannot observe, e.g. Go map order); X compares the model with this projection, the judge (sub 1/2) always sees the whole output.  Default: the whole output.
@@ -191,6 +195,9 @@ func matchSpec(spec, impl []int64) bool {
 
 // ---------------------------------------------------------------- running the implementation safely
 func SafeImpl(p *Prop, in []int64) (out []int64) {
+	if p.Isolate != nil && os.Getenv("VERIF_CHILDIMPL") == "" && p.Isolate(in) {
+		return childImpl(p, in)
+	}
 	type res struct{ o []int64 }
 	ch := make(chan res, 1)
 	go func() {
@@ -207,6 +214,62 @@ func SafeImpl(p *Prop, in []int64) (out []int64) {
 	case <-time.After(20 * time.Second):
 		return []int64{HANG}
 	}
+}
+
+// childImpl runs one case in a child process (this binary, VERIF_CHILDIMPL set) under an address-space limit; a child
+// that dies (fatal error: out of memory, os.Exit, a signal) is the observation [CRASH].
+func childImpl(p *Prop, in []int64) []int64 {
+	var sb strings.Builder
+	for _, v := range in {
+		fmt.Fprintf(&sb, "%d ", v)
+	}
+	cmd := exec.Command(os.Args[0], p.ID)
+	cmd.Env = append(os.Environ(), "VERIF_CHILDIMPL=1")
+	cmd.Stdin = strings.NewReader(sb.String())
+	var stdout bytes.Buffer
+	cmd.Stdout = &stdout
+	done := make(chan error, 1)
+	if err := cmd.Start(); err != nil {
+		return []int64{CRASH}
+	}
+	go func() { done <- cmd.Wait() }()
+	select {
+	case err := <-done:
+		if err != nil {
+			return []int64{CRASH}
+		}
+	case <-time.After(40 * time.Second):
+		cmd.Process.Kill()
+		<-done
+		return []int64{HANG}
+	}
+	var out []int64
+	for _, f := range strings.Fields(stdout.String()) {
+		v, err := strconv.ParseInt(f, 10, 64)
+		if err != nil {
+			return []int64{CRASH}
+		}
+		out = append(out, v)
+	}
+	return out
+}
+
+func childMain(p *Prop) {
+	lim := syscall.Rlimit{Cur: 6 << 30, Max: 6 << 30}
+	syscall.Setrlimit(syscall.RLIMIT_AS, &lim)
+	raw, _ := io.ReadAll(os.Stdin)
+	var in []int64
+	for _, f := range strings.Fields(string(raw)) {
+		v, _ := strconv.ParseInt(f, 10, 64)
+		in = append(in, v)
+	}
+	out := SafeImpl(p, in)
+	var sb strings.Builder
+	for _, v := range out {
+		fmt.Fprintf(&sb, "%d ", v)
+	}
+	os.Stdout.WriteString(sb.String())
+	os.Exit(0)
 }
 
 // ---------------------------------------------------------------- context
@@ -510,6 +573,9 @@ func main() {
 	if p == nil {
 		fmt.Fprintln(os.Stderr, "unknown property", flag.Arg(0))
 		os.Exit(2)
+	}
+	if os.Getenv("VERIF_CHILDIMPL") != "" {
+		childMain(p)
 	}
 	if workers < 1 {
 		workers = 1
